@@ -59,7 +59,27 @@ pub const OPS: &[&str] = &[
     "serde-from_value",
     "serde-from_str",
     "serde-to_string",
+    // a long list in every position a Serde visitor can meet it: skipped (unknown field,
+    // IgnoredAny), as a struct field, inside an Option, as a map of n entries (seed C16-c)
+    "serde-ignored-any",
+    "serde-unknown-field",
+    "serde-unknown-field-str",
+    "serde-struct-field",
+    "serde-option-vec",
+    "serde-map-from_value",
+    "serde-map-to_value",
+    "serde-tuple-elements",
 ];
+
+#[derive(serde_derive::Serialize, serde_derive::Deserialize)]
+struct OnlyId {
+    id: u64,
+}
+#[derive(serde_derive::Serialize, serde_derive::Deserialize)]
+struct WithVec {
+    id: u64,
+    v: Vec<u64>,
+}
 
 /// The other operand of a `ne-*` comparison: same shape as `build("cons-new", ..)`, differing
 /// from it as the pattern says.
@@ -279,6 +299,56 @@ pub fn child_listop(c: &J) -> String {
                 let v: Vec<u64> = serde_lexpr::from_str(&t).expect("from_str");
                 return format!("ok {}", v.len());
             }
+            "serde-ignored-any" => {
+                let val = build("cons-new", n, false);
+                let _: serde::de::IgnoredAny = serde_lexpr::from_value(&val).expect("IgnoredAny");
+                std::mem::forget(val);
+                return format!("ok {}", n);
+            }
+            "serde-unknown-field" | "serde-struct-field" => {
+                // ((id . 7) (v 0 1 2 ...))
+                let val = Value::list(vec![Value::cons(Value::symbol("id"), Value::from(7u64)), Value::cons(Value::symbol("v"), build("cons-new", n, false))]);
+                let k = if op == "serde-unknown-field" {
+                    let x: OnlyId = serde_lexpr::from_value(&val).expect("from_value");
+                    (x.id == 7) as usize * n
+                } else {
+                    let x: WithVec = serde_lexpr::from_value(&val).expect("from_value");
+                    x.v.len() + (x.id as usize - 7)
+                };
+                std::mem::forget(val);
+                return format!("ok {}", k);
+            }
+            "serde-unknown-field-str" => {
+                let t = format!("((id . 7) (v . {}))", text_of(n, false));
+                let x: OnlyId = serde_lexpr::from_str(&t).expect("from_str");
+                return format!("ok {}", (x.id == 7) as usize * n);
+            }
+            "serde-option-vec" => {
+                let val = Value::list(vec![build("cons-new", n, false)]);
+                let x: Option<Vec<u64>> = serde_lexpr::from_value(&val).expect("from_value");
+                std::mem::forget(val);
+                return format!("ok {}", x.map(|v| v.len()).unwrap_or(0));
+            }
+            "serde-map-from_value" | "serde-map-to_value" => {
+                let m: std::collections::BTreeMap<u64, u64> = (0..n as u64).map(|i| (i, i % 10)).collect();
+                let val = serde_lexpr::to_value(&m).expect("to_value");
+                let k = if op == "serde-map-to_value" {
+                    val.as_cons().map(|c| c.iter().count()).unwrap_or(0)
+                } else {
+                    let back: std::collections::BTreeMap<u64, u64> = serde_lexpr::from_value(&val).expect("from_value");
+                    back.len()
+                };
+                std::mem::forget(val);
+                return format!("ok {}", k);
+            }
+            "serde-tuple-elements" => {
+                // a long list of pairs read as Vec<(u64, u64)> (every element a vector)
+                let v: Vec<(u64, u64)> = (0..n as u64).map(|i| (i, i % 10)).collect();
+                let val = serde_lexpr::to_value(&v).expect("to_value");
+                let back: Vec<(u64, u64)> = serde_lexpr::from_value(&val).expect("from_value");
+                std::mem::forget(val);
+                return format!("ok {}", back.len());
+            }
             "serde-to_string" => {
                 let v: Vec<u64> = (0..n).map(|i| (i % 10) as u64).collect();
                 let s = serde_lexpr::to_string(&v).expect("to_string");
@@ -440,7 +510,7 @@ fn judge(acc: &mut Acc, rank: u64, c: &J, obs: &ChildObs) {
             let dotted = c["shape"].as_str() == Some("dotted");
             let expect: Option<u64> = match op {
                 "build-only" | "clone" | "parse-str-value" | "parse-slice-value" | "parse-reader-value" | "parse-reader-datum" | "parse-str-datum" | "datum-clone" | "datum-into-value" | "serde-to_value" | "serde-from_value"
-                | "serde-from_str" | "cons.to_vec" | "cons.to_ref_vec" | "cons.into_vec" | "iter-count" | "into_iter-exhaust" => Some(n),
+                | "serde-from_str" | "serde-ignored-any" | "serde-unknown-field" | "serde-unknown-field-str" | "serde-struct-field" | "serde-option-vec" | "serde-map-from_value" | "serde-map-to_value" | "serde-tuple-elements" | "cons.to_vec" | "cons.to_ref_vec" | "cons.into_vec" | "iter-count" | "into_iter-exhaust" => Some(n),
                 "value.to_vec" | "value.to_ref_vec" => Some(n),
                 // list_iter-exhaust continues past the first None and counts the tail of a dotted list;
                 // the datum loop stops at the first None
@@ -488,7 +558,7 @@ pub fn run(ctx: &Ctx) -> Report {
     }
     let sub = Sub::new(
         "operations",
-        "every public operation that walks a list (parse from str/slice/reader as value and datum, print to String/Vec/writer/Display, the to_vec family, the three iterators exhausted and dropped half-way, positional and association indexing, is_list, clone, == (equal operands and operands differing everywhere / at alternate positions / first / last element / tail / length), drop; Datum clone/==/drop/list_iter/into Value; Serde to_value/from_value/from_str/to_string) x {proper, dotted} x construction routes (Value::append, Cons::new chain, parser, Serde), each in a child process on a thread with the stated stack; a baseline at n = 8 shows the constant part fits; non-trivial = completed at n > 1000",
+        "every public operation that walks a list (parse from str/slice/reader as value and datum, print to String/Vec/writer/Display, the to_vec family, the three iterators exhausted and dropped half-way, positional and association indexing, is_list, clone, == (equal operands and operands differing everywhere / at alternate positions / first / last element / tail / length), drop; Datum clone/==/drop/list_iter/into Value; Serde to_value/from_value/from_str/to_string, and a long list skipped as an unknown field / IgnoredAny, as a struct field, in an Option, a map of n entries, n tuples) x {proper, dotted} x construction routes (Value::append, Cons::new chain, parser, Serde), each in a child process on a thread with the stated stack; a baseline at n = 8 shows the constant part fits; non-trivial = completed at n > 1000",
         &format!("{} cases; (stack, n) in {:?}; the O(n^2) datum-from-str parse at (256 KiB, 2^15)", cases.len(), configs),
     );
     let obs = run_children(&cases, ctx.threads.min(16), 120, "c16");
